@@ -13,47 +13,47 @@ package core
 //@ private Cache
 
 // ------------------------------------------------------------------ C13
-// Digest reuse. cmatch is the property's hypothesis boundary: the digest
+// Digest reuse. scancmatch is the property's hypothesis boundary: the digest
 // cache knows the path and type bits, modification time, size and file
-// identity of the file on disk are those the cache recorded. creusable
+// identity of the file on disk are those the cache recorded. scancreusable
 // additionally demands the full mode (permission bits) to be the recorded one.
 // teq/pbtime are time.Time.Equal and Timestamp.AsTime.
 
-//@ pred cmatch(s, path, m) = s.cache.Entries != nil && has(s.cache.Entries, path) && (m.Mode & filesystem.ModeTypeMask) == (s.cache.Entries[path].Mode & filesystem.ModeTypeMask) && teq(m.ModificationTime, pbtime(s.cache.Entries[path].ModificationTime)) && m.Size == s.cache.Entries[path].Size && m.FileID == s.cache.Entries[path].FileID
-//@ pred creusable(s, path, m) = cmatch(s, path, m) && m.Mode == s.cache.Entries[path].Mode
-//@ pred sameslice(a, b) = base(a) == base(b) && off(a) == off(b) && len(a) == len(b)
+//@ pred scancmatch(s, path, m) = s.cache.Entries != nil && has(s.cache.Entries, path) && (m.Mode & filesystem.ModeTypeMask) == (s.cache.Entries[path].Mode & filesystem.ModeTypeMask) && teq(m.ModificationTime, pbtime(s.cache.Entries[path].ModificationTime)) && m.Size == s.cache.Entries[path].Size && m.FileID == s.cache.Entries[path].FileID
+//@ pred scancreusable(s, path, m) = scancmatch(s, path, m) && m.Mode == s.cache.Entries[path].Mode
+//@ pred scansameslice(a, b) = base(a) == base(b) && off(a) == off(b) && len(a) == len(b)
 
 // What Directory.OpenFile returned for (directory, name): pure naming of the
 // two results of the one call made by scanner.file.
-//@ ufunc ofile(d *filesystem.Directory, n string) io.ReadSeekCloser
-//@ ufunc ometa(d *filesystem.Directory, n string) *filesystem.Metadata
+//@ ufunc scanofile(d *filesystem.Directory, n string) io.ReadSeekCloser
+//@ ufunc scanometa(d *filesystem.Directory, n string) *filesystem.Metadata
 
-// hmeta: the metadata of the file that was hashed (or whose cached digest was
+// scanhmeta: the metadata of the file that was hashed (or whose cached digest was
 // taken): the caller's metadata when the digest comes from the cache or the
 // caller passed the open file, otherwise what OpenFile reported when the file
-// was opened for hashing. hfile likewise for the file handle read.
-//@ spec hmeta(s, path, parent, metadata, file) *filesystem.Metadata = (cmatch(s, path, metadata) || file != nil) ? metadata : ometa(parent, metadata.Name)
-//@ spec hfile(parent, metadata, file) io.ReadSeekCloser = file != nil ? file : ofile(parent, metadata.Name)
-//@ pred isfile(r0, r1) = r1 == nil && r0 != nil && r0.Kind == EntryKind_File
+// was opened for hashing. scanhfile likewise for the file handle read.
+//@ spec scanhmeta(s, path, parent, metadata, file) *filesystem.Metadata = (scancmatch(s, path, metadata) || file != nil) ? metadata : scanometa(parent, metadata.Name)
+//@ spec scanhfile(parent, metadata, file) io.ReadSeekCloser = file != nil ? file : scanofile(parent, metadata.Name)
+//@ pred scanisfile(r0, r1) = r1 == nil && r0 != nil && r0.Kind == EntryKind_File
 
 //@ func (*scanner).file
 //@   requires s != nil && s.cache != nil && s.newCache != nil && s.newCache.Entries != nil && metadata != nil
-//@   at call (*Directory).OpenFile assume result2 == nil ==> result0 == ofile(arg0, arg1) && result1 == ometa(arg0, arg1)
-//@   ensures[reuse] old(cmatch(s, path, metadata)) ==> hresets[s.hasher] == old(hresets[s.hasher]) && ncopybuf == old(ncopybuf)
-//@   ensures[reuse] isfile(result0, result1) && old(cmatch(s, path, metadata)) ==> sameslice(result0.Digest, old(s.cache.Entries[path].Digest))
-//@   ensures[guard] isfile(result0, result1) && !old(cmatch(s, path, metadata)) ==> hresets[s.hasher] == old(hresets[s.hasher]) + 1 && ncopybuf == old(ncopybuf) + 1
-//@   ensures[guard] isfile(result0, result1) && !old(cmatch(s, path, metadata)) ==> base(result0.Digest) == 0 || sumsrc(base(result0.Digest)) == s.hasher
-//@   ensures[hashed] isfile(result0, result1) && !old(cmatch(s, path, metadata)) ==> copybufsrc == old(hfile(parent, metadata, file)) && copybufn == old(hmeta(s, path, parent, metadata, file)).Size
+//@   at call (*Directory).OpenFile assume result2 == nil ==> result0 == scanofile(arg0, arg1) && result1 == scanometa(arg0, arg1)
+//@   ensures[reuse] old(scancmatch(s, path, metadata)) ==> hresets[s.hasher] == old(hresets[s.hasher]) && ncopybuf == old(ncopybuf)
+//@   ensures[reuse] scanisfile(result0, result1) && old(scancmatch(s, path, metadata)) ==> scansameslice(result0.Digest, old(s.cache.Entries[path].Digest))
+//@   ensures[guard] scanisfile(result0, result1) && !old(scancmatch(s, path, metadata)) ==> hresets[s.hasher] == old(hresets[s.hasher]) + 1 && ncopybuf == old(ncopybuf) + 1
+//@   ensures[guard] scanisfile(result0, result1) && !old(scancmatch(s, path, metadata)) ==> base(result0.Digest) == 0 || sumsrc(base(result0.Digest)) == s.hasher
+//@   ensures[hashed] scanisfile(result0, result1) && !old(scancmatch(s, path, metadata)) ==> copybufsrc == old(scanhfile(parent, metadata, file)) && copybufn == old(scanhmeta(s, path, parent, metadata, file)).Size
 //@   at call io.CopyBuffer assert[hashed] unboxptr(arg0, "stream.preemptableWriter") != nil && unboxptr(arg0, "stream.preemptableWriter").writer == s.hasher
-//@   ensures[entry] isfile(result0, result1) ==> has(s.newCache.Entries, path) && sameslice(s.newCache.Entries[path].Digest, result0.Digest)
-//@   ensures[entryreuse] isfile(result0, result1) && old(creusable(s, path, metadata)) ==> s.newCache.Entries[path] == old(s.cache.Entries[path])
-//@   ensures[entryreuse] isfile(result0, result1) && !old(creusable(s, path, metadata)) ==> fresh(s.newCache.Entries[path]) && s.newCache.Entries[path] != nil
-//@   ensures[entrymeta] isfile(result0, result1) && !old(creusable(s, path, metadata)) ==> s.newCache.Entries[path].Mode == old(hmeta(s, path, parent, metadata, file)).Mode && s.newCache.Entries[path].Size == old(hmeta(s, path, parent, metadata, file)).Size && s.newCache.Entries[path].FileID == old(hmeta(s, path, parent, metadata, file)).FileID && pbsrc(s.newCache.Entries[path].ModificationTime) == old(hmeta(s, path, parent, metadata, file)).ModificationTime
+//@   ensures[entry] scanisfile(result0, result1) ==> has(s.newCache.Entries, path) && scansameslice(s.newCache.Entries[path].Digest, result0.Digest)
+//@   ensures[entryreuse] scanisfile(result0, result1) && old(scancreusable(s, path, metadata)) ==> s.newCache.Entries[path] == old(s.cache.Entries[path])
+//@   ensures[entryreuse] scanisfile(result0, result1) && !old(scancreusable(s, path, metadata)) ==> fresh(s.newCache.Entries[path]) && s.newCache.Entries[path] != nil
+//@   ensures[entrymeta] scanisfile(result0, result1) && !old(scancreusable(s, path, metadata)) ==> s.newCache.Entries[path].Mode == old(scanhmeta(s, path, parent, metadata, file)).Mode && s.newCache.Entries[path].Size == old(scanhmeta(s, path, parent, metadata, file)).Size && s.newCache.Entries[path].FileID == old(scanhmeta(s, path, parent, metadata, file)).FileID && pbsrc(s.newCache.Entries[path].ModificationTime) == old(scanhmeta(s, path, parent, metadata, file)).ModificationTime
 
 // ------------------------------------------------------------------ C12
 // Per-call facts of the file and symbolic link handlers.
-//@ pred problematic(r0) = r0.Kind == EntryKind_Problematic && len(r0.Problem) >= 1
-//@ spec wrap64(x) int = x % 18446744073709551616
+//@ pred scanproblem(r0) = r0.Kind == EntryKind_Problematic && len(r0.Problem) >= 1
+//@ spec scanwrap64(x) int = x % 18446744073709551616
 
 // A file entry is executable only under the portable permissions mode, on a
 // filesystem that preserves executability, and when the mode the caller saw
@@ -67,18 +67,18 @@ package core
 //@   ensures[bits] result <==> (mode & 73) != 0
 
 //@ func (*scanner).file
-//@   ensures[exec] isfile(result0, result1) ==> (result0.Executable <==> (s.permissionsMode == PermissionsMode_PermissionsModePortable && s.preservesExecutability && anyExecutableBitSet(old(metadata.Mode))))
-//@   ensures[count] isfile(result0, result1) ==> s.files == wrap64(old(s.files) + 1) && s.totalFileSize == wrap64(old(s.totalFileSize) + old(hmeta(s, path, parent, metadata, file)).Size)
-//@   ensures[count] !isfile(result0, result1) ==> s.files == old(s.files) && s.totalFileSize == old(s.totalFileSize)
+//@   ensures[exec] scanisfile(result0, result1) ==> (result0.Executable <==> (s.permissionsMode == PermissionsMode_PermissionsModePortable && s.preservesExecutability && anyExecutableBitSet(old(metadata.Mode))))
+//@   ensures[count] scanisfile(result0, result1) ==> s.files == scanwrap64(old(s.files) + 1) && s.totalFileSize == scanwrap64(old(s.totalFileSize) + old(scanhmeta(s, path, parent, metadata, file)).Size)
+//@   ensures[count] !scanisfile(result0, result1) ==> s.files == old(s.files) && s.totalFileSize == old(s.totalFileSize)
 //@   ensures[count] s.symbolicLinks == old(s.symbolicLinks) && s.directories == old(s.directories)
-//@   ensures[problem] result1 == nil ==> result0 != nil && (result0.Kind == EntryKind_File || problematic(result0))
+//@   ensures[problem] result1 == nil ==> result0 != nil && (result0.Kind == EntryKind_File || scanproblem(result0))
 //@   ensures[problem] result1 != nil ==> result0 == nil && (result1 == ErrScanCancelled || notexist(result1))
-//@   ensures[problem] isfile(result0, result1) && !old(cmatch(s, path, metadata)) ==> copybuferr == nil
-//@   ensures[plain] isfile(result0, result1) ==> result0.Target == "" && result0.Contents == nil && result0.Problem == ""
+//@   ensures[problem] scanisfile(result0, result1) && !old(scancmatch(s, path, metadata)) ==> copybuferr == nil
+//@   ensures[plain] scanisfile(result0, result1) ==> result0.Target == "" && result0.Contents == nil && result0.Problem == ""
 
 // What Directory.ReadSymbolicLink returned for (directory, name): pure naming.
-//@ ufunc rlink(d *filesystem.Directory, n string) string
-//@ pred islink(r0, r1) = r1 == nil && r0 != nil && r0.Kind == EntryKind_SymbolicLink
+//@ ufunc scanrlink(d *filesystem.Directory, n string) string
+//@ pred scanislink(r0, r1) = r1 == nil && r0 != nil && r0.Kind == EntryKind_SymbolicLink
 
 // The target recorded for a link is what ReadSymbolicLink returned for that
 // name in that directory, never empty; in portable mode it passed
@@ -87,29 +87,29 @@ package core
 // is returned.
 //@ func (*scanner).symbolicLink
 //@   requires s != nil
-//@   at call (*Directory).ReadSymbolicLink assume result1 == nil ==> result0 == rlink(arg0, arg1)
+//@   at call (*Directory).ReadSymbolicLink assume result1 == nil ==> result0 == scanrlink(arg0, arg1)
 //@   at call (*Directory).ReadSymbolicLink assert[target] arg0 == parent && arg1 == name
-//@   at call normalizeSymbolicLinkAndEnsurePortable assert[portable] enforcePortable && arg0 == path && arg1 == rlink(parent, name)
-//@   ensures[target] islink(result0, result1) ==> result0.Target == rlink(parent, name) && result0.Target != ""
-//@   ensures[portable] islink(result0, result1) && enforcePortable ==> len(result0.Target) <= 247 && result0.Target[0] != '/' && (forall i in 0..len(result0.Target) :: result0.Target[i] != ':' && result0.Target[i] != '\\') && (forall k in 0..ncomp(result0.Target)+1 :: pdepth(path, result0.Target, k) >= 0)
-//@   ensures[count] islink(result0, result1) ==> s.symbolicLinks == wrap64(old(s.symbolicLinks) + 1)
-//@   ensures[count] !islink(result0, result1) ==> s.symbolicLinks == old(s.symbolicLinks)
+//@   at call normalizeSymbolicLinkAndEnsurePortable assert[portable] enforcePortable && arg0 == path && arg1 == scanrlink(parent, name)
+//@   ensures[target] scanislink(result0, result1) ==> result0.Target == scanrlink(parent, name) && result0.Target != ""
+//@   ensures[portable] scanislink(result0, result1) && enforcePortable ==> len(result0.Target) <= 247 && result0.Target[0] != '/' && (forall i in 0..len(result0.Target) :: result0.Target[i] != ':' && result0.Target[i] != '\\') && (forall k in 0..ncomp(result0.Target)+1 :: pdepth(path, result0.Target, k) >= 0)
+//@   ensures[count] scanislink(result0, result1) ==> s.symbolicLinks == scanwrap64(old(s.symbolicLinks) + 1)
+//@   ensures[count] !scanislink(result0, result1) ==> s.symbolicLinks == old(s.symbolicLinks)
 //@   ensures[count] s.files == old(s.files) && s.totalFileSize == old(s.totalFileSize) && s.directories == old(s.directories)
-//@   ensures[problem] result1 == nil ==> result0 != nil && (result0.Kind == EntryKind_SymbolicLink || problematic(result0))
+//@   ensures[problem] result1 == nil ==> result0 != nil && (result0.Kind == EntryKind_SymbolicLink || scanproblem(result0))
 //@   ensures[problem] result1 != nil ==> result0 == nil && notexist(result1)
-//@   ensures[plain] islink(result0, result1) ==> !result0.Executable && result0.Contents == nil && result0.Problem == "" && len(result0.Digest) == 0
+//@   ensures[plain] scanislink(result0, result1) ==> !result0.Executable && result0.Contents == nil && result0.Problem == "" && len(result0.Digest) == 0
 
 // Per-element facts of the directory handler, stated for the listing element
 // processed in one loop iteration (transition invariants: the state at the end
-// of the iteration against prev(), the state at its start). dname is the name
-// the listing reports for that element, dkey the content key a valid name is
+// of the iteration against prev(), the state at its start). scandname is the name
+// the listing reports for that element, scandkey the content key a valid name is
 // recorded under. A name that is not valid UTF-8 is only collected in the
 // first loop; the second loop records each collected name under a derivative
 // key (the name with invalid sequences replaced plus " (non-UTF-8)", extended
 // by the third loop until it is no key of the map yet).
-//@ spec dname(dc, i) string = dc[i].Name
-//@ spec dkey(s, dc, i) string = s.recomposeUnicode ? nfc(dc[i].Name) : dc[i].Name
-//@ pred supportedtype(m) = (m & filesystem.ModeTypeMask) == filesystem.ModeTypeDirectory || (m & filesystem.ModeTypeMask) == filesystem.ModeTypeFile || (m & filesystem.ModeTypeMask) == filesystem.ModeTypeSymbolicLink
+//@ spec scandname(dc, i) string = dc[i].Name
+//@ spec scandkey(s, dc, i) string = s.recomposeUnicode ? nfc(dc[i].Name) : dc[i].Name
+//@ pred scansupportedtype(m) = (m & filesystem.ModeTypeMask) == filesystem.ModeTypeDirectory || (m & filesystem.ModeTypeMask) == filesystem.ModeTypeFile || (m & filesystem.ModeTypeMask) == filesystem.ModeTypeSymbolicLink
 
 //@ func (*scanner).directory
 //@   at call strings.HasPrefix assert[temp] arg0 == contentMetadata.Name && arg1 == ".mutagen-temporary-"
@@ -118,11 +118,11 @@ package core
 //@   at call (*scanner).directory assert[temp] !istempname(contentMetadata.Name) && utf8valid(contentMetadata.Name)
 //@   at call (*Entry).walk assert[temp] !istempname(contentMetadata.Name) && utf8valid(contentMetadata.Name)
 //@   loop 1 invariant 0 <= rangeindex + 1 && rangeindex < len(directoryContents)
-//@   loop 1 invariant[temp] prev(rangeindex) + 1 == rangeindex && (istempname(dname(directoryContents, rangeindex)) ==> (forall k string :: has(contents, k) <==> prev(has(contents, k))) && len(contents) == prev(len(contents)))
-//@   loop 1 invariant[temp] prev(rangeindex) + 1 == rangeindex && (istempname(dname(directoryContents, rangeindex)) ==> s.files == prev(s.files) && s.totalFileSize == prev(s.totalFileSize) && s.symbolicLinks == prev(s.symbolicLinks) && s.directories == prev(s.directories))
-//@   loop 1 invariant[unsupported] prev(rangeindex) + 1 == rangeindex && (!istempname(dname(directoryContents, rangeindex)) && utf8valid(dname(directoryContents, rangeindex)) && !supportedtype(directoryContents[rangeindex].Mode) ==> has(contents, dkey(s, directoryContents, rangeindex)) && contents[dkey(s, directoryContents, rangeindex)] != nil && contents[dkey(s, directoryContents, rangeindex)].Kind == EntryKind_Untracked)
-//@   loop 1 invariant[unsupported] prev(rangeindex) + 1 == rangeindex && (!istempname(dname(directoryContents, rangeindex)) && utf8valid(dname(directoryContents, rangeindex)) && !supportedtype(directoryContents[rangeindex].Mode) ==> s.files == prev(s.files) && s.totalFileSize == prev(s.totalFileSize) && s.symbolicLinks == prev(s.symbolicLinks) && s.directories == prev(s.directories))
-//@   ensures[kind] result1 == nil ==> result0 != nil && ((result0.Kind == (ignoreMask ? EntryKind_PhantomDirectory : EntryKind_Directory) && result0.Contents != nil) || problematic(result0))
+//@   loop 1 invariant[temp] prev(rangeindex) + 1 == rangeindex && (istempname(scandname(directoryContents, rangeindex)) ==> (forall k string :: has(contents, k) <==> prev(has(contents, k))) && len(contents) == prev(len(contents)))
+//@   loop 1 invariant[temp] prev(rangeindex) + 1 == rangeindex && (istempname(scandname(directoryContents, rangeindex)) ==> s.files == prev(s.files) && s.totalFileSize == prev(s.totalFileSize) && s.symbolicLinks == prev(s.symbolicLinks) && s.directories == prev(s.directories))
+//@   loop 1 invariant[unsupported] prev(rangeindex) + 1 == rangeindex && (!istempname(scandname(directoryContents, rangeindex)) && utf8valid(scandname(directoryContents, rangeindex)) && !scansupportedtype(directoryContents[rangeindex].Mode) ==> has(contents, scandkey(s, directoryContents, rangeindex)) && contents[scandkey(s, directoryContents, rangeindex)] != nil && contents[scandkey(s, directoryContents, rangeindex)].Kind == EntryKind_Untracked)
+//@   loop 1 invariant[unsupported] prev(rangeindex) + 1 == rangeindex && (!istempname(scandname(directoryContents, rangeindex)) && utf8valid(scandname(directoryContents, rangeindex)) && !scansupportedtype(directoryContents[rangeindex].Mode) ==> s.files == prev(s.files) && s.totalFileSize == prev(s.totalFileSize) && s.symbolicLinks == prev(s.symbolicLinks) && s.directories == prev(s.directories))
+//@   ensures[kind] result1 == nil ==> result0 != nil && ((result0.Kind == (ignoreMask ? EntryKind_PhantomDirectory : EntryKind_Directory) && result0.Contents != nil) || scanproblem(result0))
 //@   ensures[kind] result1 != nil ==> result0 == nil
 //@   ensures[count] result1 == nil && result0.Kind == EntryKind_Problematic ==> s.files == old(s.files) && s.totalFileSize == old(s.totalFileSize) && s.symbolicLinks == old(s.symbolicLinks) && s.directories == old(s.directories)
 
@@ -135,16 +135,16 @@ package core
 // problematic entry with a text (untracked under the ignore mask), and no
 // entry recorded before is replaced. (No local of the loop body is mentioned:
 // the clauses are evaluated at the back edge, where such locals are dead.)
-// listpos(l, n): the position of name n in listing l (exists because no name
+// scanlistpos(l, n): the position of name n in listing l (exists because no name
 // occurs twice).
-//@ ufunc listpos(l int, n string) int
+//@ ufunc scanlistpos(l int, n string) int
 //@ func (*scanner).directory
-//@   at call (*Directory).ReadContents assume result1 == nil ==> forall i in 0..len(result0) :: listpos(base(result0), result0[i].Name) == i
+//@   at call (*Directory).ReadContents assume result1 == nil ==> forall i in 0..len(result0) :: scanlistpos(base(result0), result0[i].Name) == i
 //@   loop 1 invariant[nooverwrite] !s.recomposeUnicode ==> forall j in rangeindex+1..len(directoryContents) :: !has(contents, directoryContents[j].Name)
 //@   loop 1 invariant[nooverwrite] prev(rangeindex) + 1 == rangeindex && (!s.recomposeUnicode ==> forall k string :: prev(has(contents, k)) ==> has(contents, k) && contents[k] == prev(contents[k]))
-//@   loop 1 invariant[utf8] prev(rangeindex) + 1 == rangeindex && (!istempname(dname(directoryContents, rangeindex)) && !utf8valid(dname(directoryContents, rangeindex)) ==> len(nonUTF8ContentNames) == prev(len(nonUTF8ContentNames)) + 1 && nonUTF8ContentNames[len(nonUTF8ContentNames) - 1] == dname(directoryContents, rangeindex) && (forall k string :: has(contents, k) <==> prev(has(contents, k))) && len(contents) == prev(len(contents)))
-//@   loop 1 invariant[utf8] prev(rangeindex) + 1 == rangeindex && (!istempname(dname(directoryContents, rangeindex)) && !utf8valid(dname(directoryContents, rangeindex)) ==> s.files == prev(s.files) && s.totalFileSize == prev(s.totalFileSize) && s.symbolicLinks == prev(s.symbolicLinks) && s.directories == prev(s.directories))
-//@   loop 1 invariant[utf8] prev(rangeindex) + 1 == rangeindex && (istempname(dname(directoryContents, rangeindex)) || utf8valid(dname(directoryContents, rangeindex)) ==> sameslice(nonUTF8ContentNames, prev(nonUTF8ContentNames)))
+//@   loop 1 invariant[utf8] prev(rangeindex) + 1 == rangeindex && (!istempname(scandname(directoryContents, rangeindex)) && !utf8valid(scandname(directoryContents, rangeindex)) ==> len(nonUTF8ContentNames) == prev(len(nonUTF8ContentNames)) + 1 && nonUTF8ContentNames[len(nonUTF8ContentNames) - 1] == scandname(directoryContents, rangeindex) && (forall k string :: has(contents, k) <==> prev(has(contents, k))) && len(contents) == prev(len(contents)))
+//@   loop 1 invariant[utf8] prev(rangeindex) + 1 == rangeindex && (!istempname(scandname(directoryContents, rangeindex)) && !utf8valid(scandname(directoryContents, rangeindex)) ==> s.files == prev(s.files) && s.totalFileSize == prev(s.totalFileSize) && s.symbolicLinks == prev(s.symbolicLinks) && s.directories == prev(s.directories))
+//@   loop 1 invariant[utf8] prev(rangeindex) + 1 == rangeindex && (istempname(scandname(directoryContents, rangeindex)) || utf8valid(scandname(directoryContents, rangeindex)) ==> scansameslice(nonUTF8ContentNames, prev(nonUTF8ContentNames)))
 //@   at call strings.ToValidUTF8 assert[utf8] arg0 == contentName && arg1 == "\ufffd"
 //@   loop 2 invariant 0 <= rangeindex + 1 && rangeindex < len(nonUTF8ContentNames)
 //@   loop 2 invariant[utf8] prev(rangeindex) + 1 == rangeindex && len(contents) == prev(len(contents)) + 1
@@ -158,13 +158,13 @@ package core
 // traverse" (or "nominal, do not traverse" under an ignore mask) never reaches
 // a handler or the baseline reuse; the link handler runs only outside the
 // ignore-links mode and enforces portability exactly in portable mode.
-//@ pred pruned(b, mask) = (b.Status == ignore.IgnoreStatusIgnored && !b.ContinueTraversal) || (b.Status == ignore.IgnoreStatusNominal && mask && !b.ContinueTraversal)
+//@ pred scanpruned(b, mask) = (b.Status == ignore.IgnoreStatusIgnored && !b.ContinueTraversal) || (b.Status == ignore.IgnoreStatusNominal && mask && !b.ContinueTraversal)
 //@ func (*scanner).directory
 //@   at call Ignorer.Ignore assert[ignored] !ok && arg0 == s.ignorer && arg1 == contentPath && arg2 == (contentKind == EntryKind_Directory) && contentPath == fastpath.Joinable(path) + contentName
-//@   at call (*scanner).file assert[ignored] !pruned(ignoreBehavior, ignoreMask) && (!ok ==> ignoreBehavior.Status == ignore.ignStatus(s.ignorer, contentPath, false) && ignoreBehavior.ContinueTraversal == ignore.ignContinue(s.ignorer, contentPath, false))
-//@   at call (*scanner).symbolicLink assert[ignored] !pruned(ignoreBehavior, ignoreMask) && (!ok ==> ignoreBehavior.Status == ignore.ignStatus(s.ignorer, contentPath, false) && ignoreBehavior.ContinueTraversal == ignore.ignContinue(s.ignorer, contentPath, false))
-//@   at call (*scanner).directory assert[ignored] !pruned(ignoreBehavior, ignoreMask) && (!ok ==> ignoreBehavior.Status == ignore.ignStatus(s.ignorer, contentPath, true) && ignoreBehavior.ContinueTraversal == ignore.ignContinue(s.ignorer, contentPath, true))
-//@   at call (*Entry).walk assert[ignored] !pruned(ignoreBehavior, ignoreMask)
+//@   at call (*scanner).file assert[ignored] !scanpruned(ignoreBehavior, ignoreMask) && (!ok ==> ignoreBehavior.Status == ignore.ignStatus(s.ignorer, contentPath, false) && ignoreBehavior.ContinueTraversal == ignore.ignContinue(s.ignorer, contentPath, false))
+//@   at call (*scanner).symbolicLink assert[ignored] !scanpruned(ignoreBehavior, ignoreMask) && (!ok ==> ignoreBehavior.Status == ignore.ignStatus(s.ignorer, contentPath, false) && ignoreBehavior.ContinueTraversal == ignore.ignContinue(s.ignorer, contentPath, false))
+//@   at call (*scanner).directory assert[ignored] !scanpruned(ignoreBehavior, ignoreMask) && (!ok ==> ignoreBehavior.Status == ignore.ignStatus(s.ignorer, contentPath, true) && ignoreBehavior.ContinueTraversal == ignore.ignContinue(s.ignorer, contentPath, true))
+//@   at call (*Entry).walk assert[ignored] !scanpruned(ignoreBehavior, ignoreMask)
 //@   at call (*scanner).directory assert[ignored] arg6 == (ignoreBehavior.Status == ignore.IgnoreStatusIgnored || (ignoreBehavior.Status == ignore.IgnoreStatusNominal && ignoreMask))
 //@   at call (*scanner).symbolicLink assert[linkmode] s.symbolicLinkMode != SymbolicLinkMode_SymbolicLinkModeIgnore && (arg4 <==> s.symbolicLinkMode == SymbolicLinkMode_SymbolicLinkModePortable) && arg1 == contentPath && arg2 == directory && arg3 == contentName && contentKind == EntryKind_SymbolicLink
 
@@ -173,10 +173,10 @@ package core
 // over (its size added) or the walk is flagged as missing cache entries.
 //@ func (*scanner).directory$1
 //@   requires s != nil && s.cache != nil && s.newCache != nil && s.newCache.Entries != nil && entry != nil
-//@   ensures[reusecount] s.directories == ((entry.Kind == EntryKind_Directory || entry.Kind == EntryKind_PhantomDirectory) ? wrap64(old(s.directories) + 1) : old(s.directories))
-//@   ensures[reusecount] s.files == (entry.Kind == EntryKind_File ? wrap64(old(s.files) + 1) : old(s.files))
-//@   ensures[reusecount] s.symbolicLinks == (entry.Kind == EntryKind_SymbolicLink ? wrap64(old(s.symbolicLinks) + 1) : old(s.symbolicLinks))
-//@   ensures[propagate] entry.Kind == EntryKind_File && s.cache.Entries != nil && has(s.cache.Entries, path) ==> has(s.newCache.Entries, path) && s.newCache.Entries[path] == s.cache.Entries[path] && s.totalFileSize == wrap64(old(s.totalFileSize) + s.cache.Entries[path].Size) && missingCacheEntries == old(missingCacheEntries)
+//@   ensures[reusecount] s.directories == ((entry.Kind == EntryKind_Directory || entry.Kind == EntryKind_PhantomDirectory) ? scanwrap64(old(s.directories) + 1) : old(s.directories))
+//@   ensures[reusecount] s.files == (entry.Kind == EntryKind_File ? scanwrap64(old(s.files) + 1) : old(s.files))
+//@   ensures[reusecount] s.symbolicLinks == (entry.Kind == EntryKind_SymbolicLink ? scanwrap64(old(s.symbolicLinks) + 1) : old(s.symbolicLinks))
+//@   ensures[propagate] entry.Kind == EntryKind_File && s.cache.Entries != nil && has(s.cache.Entries, path) ==> has(s.newCache.Entries, path) && s.newCache.Entries[path] == s.cache.Entries[path] && s.totalFileSize == scanwrap64(old(s.totalFileSize) + s.cache.Entries[path].Size) && missingCacheEntries == old(missingCacheEntries)
 //@   ensures[propagate] entry.Kind == EntryKind_File && !(s.cache.Entries != nil && has(s.cache.Entries, path)) ==> missingCacheEntries && s.totalFileSize == old(s.totalFileSize)
 //@   ensures[propagate] entry.Kind != EntryKind_File ==> s.totalFileSize == old(s.totalFileSize) && missingCacheEntries == old(missingCacheEntries)
 
@@ -186,24 +186,24 @@ package core
 // same checks passed, together with a dirty set that contains every recheck
 // path, is closed under taking the parent (fastpath.Dir) and contains the
 // root path "".
-//@ pred isdirty(d, p) = d != nil && has(d, p) && d[p]
+//@ pred scanisdirty(d, p) = d != nil && has(d, p) && d[p]
 
 //@ func Scan
 //@   ensures[unchanged] result3 == nil ==> fresh(result0) || (baseline != nil && result0 == baseline && len(recheckPaths) == 0 && result1 == cache && result2 == ignoreCache)
 //@   ensures[flags] result3 == nil && baseline != nil && result0 == baseline ==> baseline.Content != nil && baseline.Content.Kind == rootKind && baseline.PreservesExecutability == preservesExecutability && baseline.DecomposesUnicode == decomposesUnicode
 //@   at call (*scanner).directory assert[flags] arg5 != nil ==> old(baseline) != nil && arg5 == old(baseline).Content && arg5.Kind == EntryKind_Directory && old(baseline).PreservesExecutability == preservesExecutability && old(baseline).DecomposesUnicode == decomposesUnicode
-//@   at call (*scanner).directory assert[dirty] arg5 != nil ==> forall p string :: recheckPaths != nil && has(recheckPaths, p) ==> isdirty(arg0.dirtyPaths, p)
-//@   at call (*scanner).directory assert[dirty] arg5 != nil ==> forall p string :: isdirty(arg0.dirtyPaths, p) && p != "" ==> isdirty(arg0.dirtyPaths, fastpath.fdir(p))
-//@   at call (*scanner).directory assert[dirty] arg5 != nil ==> isdirty(arg0.dirtyPaths, "")
+//@   at call (*scanner).directory assert[dirty] arg5 != nil ==> forall p string :: recheckPaths != nil && has(recheckPaths, p) ==> scanisdirty(arg0.dirtyPaths, p)
+//@   at call (*scanner).directory assert[dirty] arg5 != nil ==> forall p string :: scanisdirty(arg0.dirtyPaths, p) && p != "" ==> scanisdirty(arg0.dirtyPaths, fastpath.fdir(p))
+//@   at call (*scanner).directory assert[dirty] arg5 != nil ==> scanisdirty(arg0.dirtyPaths, "")
 //@   loop 1 modifies dirtyPaths[*]
 //@   loop 1 invariant[dirty] dirtyPaths != nil
-//@   loop 1 invariant[dirty] forall p string :: rangevisited(p) ==> isdirty(dirtyPaths, p)
-//@   loop 1 invariant[dirty] forall p string :: isdirty(dirtyPaths, p) && p != "" ==> isdirty(dirtyPaths, fastpath.fdir(p))
-//@   loop 1 invariant[dirty] forall p string :: isdirty(dirtyPaths, p) ==> isdirty(dirtyPaths, "")
+//@   loop 1 invariant[dirty] forall p string :: rangevisited(p) ==> scanisdirty(dirtyPaths, p)
+//@   loop 1 invariant[dirty] forall p string :: scanisdirty(dirtyPaths, p) && p != "" ==> scanisdirty(dirtyPaths, fastpath.fdir(p))
+//@   loop 1 invariant[dirty] forall p string :: scanisdirty(dirtyPaths, p) ==> scanisdirty(dirtyPaths, "")
 //@   loop 2 modifies dirtyPaths[*]
 //@   loop 2 invariant[dirty] dirtyPaths != nil
-//@   loop 2 invariant[dirty] forall p string :: rangevisited(p) ==> isdirty(dirtyPaths, p) || p == path
-//@   loop 2 invariant[dirty] forall p string :: isdirty(dirtyPaths, p) && p != "" ==> isdirty(dirtyPaths, fastpath.fdir(p)) || fastpath.fdir(p) == path
+//@   loop 2 invariant[dirty] forall p string :: rangevisited(p) ==> scanisdirty(dirtyPaths, p) || p == path
+//@   loop 2 invariant[dirty] forall p string :: scanisdirty(dirtyPaths, p) && p != "" ==> scanisdirty(dirtyPaths, fastpath.fdir(p)) || fastpath.fdir(p) == path
 
 // The directory handler. A baseline sub-tree is put into the new snapshot
 // without rescanning only if it is the directory entry the baseline holds
@@ -216,7 +216,7 @@ package core
 //@   requires s != nil && s.cache != nil && s.newCache != nil && s.newCache.Entries != nil && metadata != nil
 //@   requires baseline == nil || baseline.Kind == EntryKind_Directory
 //@   at call (*Entry).walk assert[reuse] baseline != nil && arg0 != nil && arg0 == baseline.Contents[contentName] && arg0.Kind == EntryKind_Directory && contentKind == EntryKind_Directory
-//@   at call (*Entry).walk assert[reuse] !isdirty(s.dirtyPaths, contentPath) && arg1 == contentPath && len(arg0.Contents) != 0
+//@   at call (*Entry).walk assert[reuse] !scanisdirty(s.dirtyPaths, contentPath) && arg1 == contentPath && len(arg0.Contents) != 0
 //@   at call (*scanner).directory assert[descend] arg1 == contentPath && arg2 == directory && arg3 == contentMetadata && arg4 == nil && arg6 == contentIgnoreMask
 //@   at call (*scanner).directory assert[descend] arg5 == nil || (baseline != nil && arg5 == baseline.Contents[contentName] && arg5.Kind == EntryKind_Directory)
 //@   at call (*scanner).file assert[recheck] arg1 == contentPath && arg2 == directory && arg3 == contentMetadata && arg4 == nil
@@ -226,13 +226,22 @@ package core
 // root's device and zeroed counters, for the root path ""; a new snapshot
 // reports the probed behaviour, and for a file root (one file entry, or a
 // problem) the counts it reports are those of its content.
-//@ pred scannersetup(sc, hasher, ignorer, ignoreCache, symbolicLinkMode, permissionsMode) = sc != nil && sc.hasher == hasher && sc.ignorer == ignorer && sc.ignoreCache == ignoreCache && sc.symbolicLinkMode == symbolicLinkMode && sc.permissionsMode == permissionsMode && sc.files == 0 && sc.directories == 0 && sc.symbolicLinks == 0 && sc.totalFileSize == 0 && sc.cache != nil && sc.newCache != nil && fresh(sc.newCache) && sc.newIgnoreCache != nil && fresh(sc.newIgnoreCache)
+//@ pred scansetup(sc, hasher, ignorer, ignoreCache, symbolicLinkMode, permissionsMode) = sc != nil && sc.hasher == hasher && sc.ignorer == ignorer && sc.ignoreCache == ignoreCache && sc.symbolicLinkMode == symbolicLinkMode && sc.permissionsMode == permissionsMode && sc.files == 0 && sc.directories == 0 && sc.symbolicLinks == 0 && sc.totalFileSize == 0 && sc.cache != nil && sc.newCache != nil && fresh(sc.newCache) && sc.newIgnoreCache != nil && fresh(sc.newIgnoreCache)
 //@ func Scan
-//@   at call (*scanner).directory assert[setup] scannersetup(arg0, hasher, ignorer, ignoreCache, symbolicLinkMode, permissionsMode) && (old(cache) != nil ==> arg0.cache == old(cache)) && arg0.preservesExecutability == preservesExecutability && arg0.recomposeUnicode == decomposesUnicode && arg0.deviceID == metadata.DeviceID
+//@   at call (*scanner).directory assert[setup] scansetup(arg0, hasher, ignorer, ignoreCache, symbolicLinkMode, permissionsMode) && (old(cache) != nil ==> arg0.cache == old(cache)) && arg0.preservesExecutability == preservesExecutability && arg0.recomposeUnicode == decomposesUnicode && arg0.deviceID == metadata.DeviceID
 //@   at call (*scanner).directory assert[setup] arg1 == "" && arg2 == nil && arg3 == metadata && arg4 == directoryRoot && arg4 != nil && !arg6 && (metadata.Mode & filesystem.ModeTypeMask) == filesystem.ModeTypeDirectory
-//@   at call (*scanner).file assert[setup] scannersetup(arg0, hasher, ignorer, ignoreCache, symbolicLinkMode, permissionsMode) && (old(cache) != nil ==> arg0.cache == old(cache)) && arg0.preservesExecutability == preservesExecutability
+//@   at call (*scanner).file assert[setup] scansetup(arg0, hasher, ignorer, ignoreCache, symbolicLinkMode, permissionsMode) && (old(cache) != nil ==> arg0.cache == old(cache)) && arg0.preservesExecutability == preservesExecutability
 //@   at call (*scanner).file assert[setup] arg1 == "" && arg2 == nil && arg3 == metadata && arg4 == fileRoot && arg4 != nil && (metadata.Mode & filesystem.ModeTypeMask) == filesystem.ModeTypeFile
 //@   ensures[snapshot] result3 == nil && fresh(result0) && result0.Content != nil ==> result0.PreservesExecutability == preservesExecutability && result0.DecomposesUnicode == decomposesUnicode && fresh(result1) && result1 != nil && result2 != nil
 //@   ensures[rootcounts] result3 == nil && fresh(result0) && result0.Content != nil && result0.Content.Kind == EntryKind_File ==> result0.Files == 1 && result0.Directories == 0 && result0.SymbolicLinks == 0
 //@   ensures[rootcounts] result3 == nil && fresh(result0) && result0.Content != nil && result0.Content.Kind == EntryKind_Problematic ==> result0.Files == 0 && result0.Directories == 0 && result0.SymbolicLinks == 0 && result0.TotalFileSize == 0
 //@   ensures[rootcounts] result3 == nil && fresh(result0) && result0.Content == nil ==> result0.Files == 0 && result0.Directories == 0 && result0.SymbolicLinks == 0 && result0.TotalFileSize == 0
+
+// Entry.Copy fills the content map of the copy it is building: the three
+// copying loops write that map only (loop frames for the contract of Copy in
+// zz_contracts_transition_verif.go; a loop that itself writes a heap of an
+// immutable type keeps nothing of it without a frame or an invariant).
+//@ func (*Entry).Copy
+//@   loop 1 modifies result.Contents[*]
+//@   loop 2 modifies result.Contents[*]
+//@   loop 3 modifies result.Contents[*]
